@@ -14,7 +14,8 @@ RULE = (
     "Generated sub-programs (C01 grammar: values, nested jobs, control forms, failures) evaluated "
     "through subrun(expr, executor='default', new_execution=True/False) with the real local thread "
     "executor and a sub-scheduler recording into the same SQLite file, with caching on or off, alone, "
-    "inside a task, or after a directly evaluated copy, then executed a second (third) time on the same "
+    "inside a task, after a directly evaluated copy, or under a task whose update_context overrides a "
+    "context configured for the scheduler (the sub-workflow reads its context), then executed a second (third) time on the same "
     "backend, in the same or in the other mode. Oracle: "
     "(1) the result or error (type, message) equals what the reference interpreter gives for direct "
     "evaluation, in both executions; (2) with new_execution=False the root job of the sub-workflow is "
@@ -47,12 +48,23 @@ def cases(draw):
         prog = ["seq", [body, sub]]
     else:
         prog = ["list", [sub]]
+    root = {}
+    if draw(st.integers(0, 2)) == 0:
+        # a configured context, overridden on the way to the subrun by update_context: the
+        # sub-workflow reads the context it runs under
+        root = {"a": draw(st.integers(1, 3)), "b": {"x": 2}}
+        reads = ["list", [body, ["getctx", "a", 0], ["getctx", "b.x", 0], ["task", ["getctx", "a", 0], {}, {}]]]
+        sub = ["subrun", reads, new_exec, {}]
+        ov = draw(st.sampled_from([{"a": 7}, {"b": {"x": 9}}, {"a": 8, "c": 1}]))
+        prog = ["list", [["task", sub, {}, {"ctx": ov}]]]
+        shape = "ctx-override"
     rerun = draw(st.booleans())
     # executions of the same program on the same backend; a later one may use the other mode
     modes = [new_exec] + ([draw(st.sampled_from([new_exec, new_exec, not new_exec]))] if rerun else [])
     if rerun and draw(st.integers(0, 3)) == 0:
         modes.append(draw(st.booleans()))
-    return {"prog": prog, "new_execution": new_exec, "cache": draw(st.booleans()), "shape": shape, "rerun": rerun, "modes": modes}
+    return {"prog": prog, "new_execution": new_exec, "cache": draw(st.booleans()), "shape": shape, "rerun": rerun, "modes": modes,
+            "root": root}
 
 
 def with_mode(prog, mode):
@@ -71,7 +83,12 @@ def run_real(case, backend, path, log, prog=None):
     from redun.config import Config
     from redun.task import CacheResult
 
-    cfg = Config(config_dict={"backend": {"db_uri": "sqlite:///" + path, "db_retries_backoff": "0"}})
+    cd = {"backend": {"db_uri": "sqlite:///" + path, "db_retries_backoff": "0"}}
+    if case.get("root"):
+        import json
+
+        cd["scheduler"] = {"context": json.dumps(case["root"])}
+    cfg = Config(config_dict=cd)
     sched = Scheduler(config=cfg, backend=backend)
     orig = backend.check_cache
     sub_hash = sched.task_registry.get("redun.subrun_root_task").hash
@@ -98,7 +115,7 @@ def oracle(ctx: Ctx, case):
     from redun.task import CacheResult
 
     C.quiet_logs()
-    exp = P.reference(case["prog"])
+    exp = P.reference(case["prog"], context=case.get("root") or None)
     path = dbx.new_db_path()
     backend = dbx.open_backend(path)
     info = {"subjobs": 0}
